@@ -128,6 +128,42 @@ theorem rpc_path_uses_wire_names (n : Naming) (svc : Service) (m : Method) :
     (mkStub n svc m).path = wirePath svc.package svc.name m.name := by
   simp [mkStub, rpcPath, wirePath]
 
+/-- **The `<proto package>` of the path is the package of the file that DECLARES the service**
+(`method.meta.address.package`), not the API's root package (`naming.proto_package`, the common
+prefix of the packages being generated): the stub path does not read the naming at all. -/
+theorem rpc_path_ignores_api_root (n n' : Naming) (svc : Service) (m : Method) :
+    (mkStub n svc m).path = (mkStub n' svc m).path := rfl
+
+/-- … and for a service declared in a sub-package of the API (`acme.zoo.v1.keepers` next to
+`acme.zoo.v1`) the two packages differ: the path is `/acme.zoo.v1.keepers.Keepers/GetKeeper`, and a
+path built from the API's root package would address an RPC no server implements.  (Run on the real
+generator: corpus/C03/service_in_sub_package.json, services_in_nested_sub_package.json.) -/
+theorem rpc_path_sub_package_counterexample :
+    let n : Naming := { protoPackage := "acme.zoo.v1".toList }
+    let a : Addr := ⟨["acme".toList, "zoo".toList, "v1".toList, "keepers".toList], "keepers".toList, [], "Keeper".toList, []⟩
+    let m : Method := { name := "GetKeeper".toList, input := a, output := a, clientStreaming := false, serverStreaming := false }
+    let svc : Service := { package := a.package, name := "Keepers".toList, methods := [m] }
+    inApi n a = true ∧
+    (mkStub n svc m).path = "/acme.zoo.v1.keepers.Keepers/GetKeeper".toList ∧
+    (mkStub n svc m).path ≠ wirePath [n.protoPackage] svc.name m.name := by decide
+
+/-- fully qualified service name, `<proto package>.<Service>` -/
+def qualified (svc : Service) : Str := dotted svc.package ++ '.' :: svc.name
+
+/-- **Services of DIFFERENT packages of one API on one channel are told apart by the path**: when the
+qualified service names contain no `/` (protoc: dotted identifiers), equal paths mean the same
+qualified service and the same RPC name — `acme.zoo.v1.Keepers` and `acme.zoo.v1.keepers.Keepers`
+never collide. -/
+theorem rpc_path_qualified_injective (s1 s2 : Service) (m1 m2 : Method)
+    (h1 : '/' ∉ qualified s1) (h2 : '/' ∉ qualified s2) (h : rpcPath s1 m1 = rpcPath s2 m2) :
+    qualified s1 = qualified s2 ∧ m1.name = m2.name := by
+  unfold rpcPath at h
+  simp only [List.cons_append, List.cons.injEq, true_and] at h
+  exact append_sep_inj '/' (qualified s1) (qualified s2) m1.name m2.name h1 h2
+    (by simpa [qualified, List.append_assoc] using h)
+
+example : '/' ∉ qualified { package := ["acme".toList, "zoo".toList, "v1".toList, "keepers".toList], name := "Keepers".toList, methods := [] } := by decide
+
 /-- within one service the path determines the RPC name -/
 theorem rpc_path_injective (svc : Service) (a b : Method) (h : rpcPath svc a = rpcPath svc b) :
     a.name = b.name := by
